@@ -921,6 +921,11 @@ func (val *Node) AsSliceBytes(ctx *Context) ([]byte, error) {
 		var gerr error
 		var ok bool
 		for i := 0; i < size; i++ {
+			if elem.IsNull() {
+				/* null leaves the element as it is */
+				elem = NewNode(PtrOffset(elem.cptr, 1))
+				continue
+			}
 			a[i], ok = elem.AsByte(ctx)
 			if !ok && gerr == nil {
 				gerr = newUnmatched(val.Position(), rt.BytesType)
